@@ -738,7 +738,10 @@ def mpi_atan2(y, x, prec):
     if ya == yb == fzero:
         if mpf_ge(xa, fzero):
             return mpi_zero
-        return mpi_pi(prec)
+        if mpf_lt(xb, fzero):
+            return mpi_pi(prec)
+        # x changes sign: both 0 and pi occur
+        return fzero, mpf_pi(prec, round_ceiling)
     # Right half-plane
     if mpf_ge(xa, fzero):
         if mpf_ge(ya, fzero):
@@ -756,8 +759,9 @@ def mpi_atan2(y, x, prec):
             a = mpf_atan2(yb, xb, prec, round_floor)
         else:
             a = mpf_atan2(ya, xb, prec, round_floor)
-    # Lower half-plane
-    elif mpf_le(yb, fzero):
+    # Lower half-plane (a rectangle touching the negative real axis from
+    # below contains angles next to -pi as well as pi: covered by the last case)
+    elif mpf_lt(yb, fzero):
         a = mpf_atan2(yb, xa, prec, round_floor)
         if mpf_le(xb, fzero):
             b = mpf_atan2(ya, xb, prec, round_ceiling)
